@@ -6,6 +6,23 @@ import gen
 from common import seed, pmap
 
 
+def _through_job(job):
+    """glycan whose child is linked onto a substituted position (through the substituent's free end): balance against the two
+    residues converted alone"""
+    import chem
+    import real
+    g, parent, child = job
+    out = {}
+    for k, x in (("g", g), ("p", parent), ("c", child)):
+        kind, smi = real.smiles_of(x)
+        m = chem.mol(smi) if kind == "ok" and smi else None
+        if m is None:
+            out[k] = None
+        else:
+            out[k] = (chem.atom_counts(m), chem.ring_count(m), smi)
+    return out
+
+
 def run(rep, tier, driver):
     rng = random.Random(seed() * 7 + 5)
     vocab = gen.Vocab()
@@ -51,6 +68,41 @@ def run(rep, tier, driver):
         if o.get("counts") != o["spec_counts"] or o.get("rings") != o["spec_rings"]:
             rep.violation("input", {"iupac": c["iupac"]}, {"atoms": o.get("counts"), "rings": o.get("rings"), "smiles": o["smiles"]},
                           {"atoms": o["spec_counts"], "rings": o["spec_rings"], "residues": o["n"]}, key="balance:" + c["iupac"])
+    # linkages onto a substituted position: the child is attached to the free end of the substituent (phosphate bridges, amino-alkyl
+    # ethers, N-acyl amino acids, ...). Every modification token on a few parents; whenever the code returns a molecule it must balance.
+    tj = []
+    fgs = [f for f in vocab.fg if f]
+    combos = [(par, pos, f) for par, poss in (("Glc", (2, 3, 4, 6)), ("Gal", (3, 6)), ("Man", (2, 6)), ("GlcN", (2,)), ("Rha", (2,)), ("Neu5Ac", (9,)), ("Fruf", (1, 6)))
+              for pos in poss for f in fgs]
+    if tier == "quick":
+        # every token once on Glc O6, the rest sampled
+        combos = [c for c in combos if c[0] == "Glc" and c[1] == 6] + rng.sample([c for c in combos if not (c[0] == "Glc" and c[1] == 6)], 150)
+    for par, pos, f in combos:
+        if par.endswith("N") and f[:1].isdigit():
+            continue
+        pname = "%s%d%s" % (par, pos, f) if not (par == "GlcN" and pos == 2) else "GlcN" + f      # 'GlcNPro', 'GlcNAc', ...
+        if par == "Rha" and f.startswith("N"):
+            pname = "Rha" + f
+        child = rng.choice(["Man", "Gal", "Fuc", "Xyl"])
+        tj.append(("%s(%s1-%d)%s" % (child, rng.choice("ab"), pos, pname), pname, child))
+    touts = pmap(_through_job, tj, chunk=4)
+    for (g, pname, child), o in zip(tj, touts):
+        rep.count("through-substituent")
+        ok = o["g"] is not None and o["p"] is not None and o["c"] is not None
+        rep.case(canon=g, nontrivial=ok)
+        if not ok:
+            rep.count("through-substituent-not-linkable-or-not-convertible")
+            continue
+        want = dict(o["p"][0])
+        for k, v in o["c"][0].items():
+            want[k] = want.get(k, 0) + v
+        want["H"] = want.get("H", 0) - 2
+        want["O"] = want.get("O", 0) - 1
+        want = {k: v for k, v in want.items() if v}
+        rings = o["p"][1] + o["c"][1]
+        if o["g"][0] != want or o["g"][1] != rings:
+            rep.violation("input", {"iupac": g, "parent": pname, "child": child}, {"atoms": o["g"][0], "rings": o["g"][1], "smiles": o["g"][2]},
+                          {"atoms": want, "rings": rings, "residues": 2}, key="balance:" + g)
     # tie of the Lean tree theorems (C05_tree_atoms, C05_tree_rings) to the code: the whole-tree certificate on the strings observed
     # inside the real merge_int of these glycans
     import mergex
